@@ -241,6 +241,7 @@ func checkC15(w *World, r *Report) {
 	checkCachedTimestampsKept(w, r)
 	checkOnlyLoadingGivesALoader(w, r)
 	checkLoaderLoopsDoNotJudgeErrors(w, r)
+	checkLoadersAskedInOrder(w, r, "R15.16")
 	// loaders are only appended
 	n2 := 0
 	for _, fn := range w.pkgFuncs() {
@@ -1929,4 +1930,74 @@ func checkLoaderLoopsDoNotJudgeErrors(w *World, r *Report) {
 		}
 	}
 	r.floor("functions walking a list of loaders", n, 2)
+}
+
+// checkLoadersAskedInOrder — R15.16: loaders are consulted in registration order.  No loader is
+// picked out of a list of loaders by an index that comes from a lookup in a map (a remembered
+// "the loader that served this directory last time"): which loader answers a name would then depend
+// on what was loaded earlier, and an override registered in front is skipped for every template
+// whose sibling happened to come from a loader further back.
+func checkLoadersAskedInOrder(w *World, r *Report, rule string) {
+	loaderT := w.lookup("Loader").Type()
+	n := 0
+	for _, fn := range w.pkgFuncs() {
+		instrsOf(fn, func(in ssa.Instruction) {
+			ia, ok := in.(*ssa.IndexAddr)
+			if !ok {
+				return
+			}
+			sl, ok := ia.X.Type().Underlying().(*types.Slice)
+			if !ok || !types.Identical(sl.Elem(), loaderT) {
+				return
+			}
+			if _, isConst := ia.Index.(*ssa.Const); isConst {
+				return
+			}
+			n++
+			construct := "loader taken from the list by a position of the walk"
+			from := ""
+			seen := map[ssa.Value]bool{}
+			var walk func(v ssa.Value, d int)
+			walk = func(v ssa.Value, d int) {
+				v = unspill(v)
+				if v == nil || seen[v] || d > 8 || from != "" {
+					return
+				}
+				seen[v] = true
+				switch x := v.(type) {
+				case *ssa.Lookup:
+					if _, isMap := x.X.Type().Underlying().(*types.Map); isMap {
+						from = w.posOf(x.Pos())
+					}
+				case *ssa.Extract:
+					walk(x.Tuple, d+1)
+				case *ssa.Phi:
+					for _, e := range x.Edges {
+						walk(e, d+1)
+					}
+				case *ssa.BinOp:
+					walk(x.X, d+1)
+					walk(x.Y, d+1)
+				case *ssa.Convert:
+					walk(x.X, d+1)
+				case *ssa.UnOp:
+					if fa, ok := x.X.(*ssa.FieldAddr); ok && x.Op == token.MUL {
+						// a remembered position kept in a field
+						if t, f := fieldOfAddr(fa); t != "" && f != "" {
+							if b, ok := x.Type().Underlying().(*types.Basic); ok && b.Info()&types.IsInteger != 0 {
+								from = "field " + t + "." + f
+							}
+						}
+					}
+				}
+			}
+			walk(ia.Index, 0)
+			if from == "" {
+				r.ok(rule, ssaName(fn), construct, w.posOf(ia.Pos()), "the index is the counter of the walk", false)
+			} else {
+				r.bad(rule, ssaName(fn), construct, w.posOf(ia.Pos()), "the loader is picked by a remembered position ("+from+") instead of by walking the list from the front: which loader serves a name depends on what was loaded before, and a loader registered earlier that has the template is passed over")
+			}
+		})
+	}
+	r.floor("indexed accesses to lists of loaders", n, 2)
 }
